@@ -190,6 +190,20 @@ class SmtSys:
             v_same = self._probe_same(t, m2, "after_event_same_object")
             if v_same:
                 viols.append(v_same)
+            # the same operation on a tree re-opened over ONLY the nodes reachable from the root (an exported / pruned copy)
+            clo = {h: b for (h, _), b in smt_closure(pre_db, snap[0], self.key_size * 8).items() if b is not None}
+            try:
+                t3 = SparseMerkleTree.from_db(clo, snap[0], key_size=self.key_size, default=self.default)
+                self.apply(t3, op, "m")
+                bad3 = None if t3.root_hash == want_root else "root"
+                if bad3 is None:
+                    bad3v = self._probe_same(t3, m2, "re-opened over reachable nodes only")
+                    bad3 = bad3v["msg"] if bad3v else None
+            except Exception as e:  # noqa
+                bad3 = f"{type(e).__name__}: {e!r:.80}"
+            if bad3:
+                viols.append(V("C14", "reopened_export_differs", "a tree re-opened with from_db over only the reachable nodes behaves differently",
+                               event=op[0], key=op[1], what=bad3, model=m2))
             for k_, v_ in pre_db.items():
                 if t.db.get(k_) != v_:
                     viols.append(V("C14", "db_entry_changed", "an existing database entry was removed or changed", event=op[0]))
